@@ -99,6 +99,7 @@ struct Run
   std::vector<std::string> snaps;     // one per harness yield, in global order
   std::vector<int> mlog;
   std::vector<long> mlogSeq;
+  std::vector<long> rsBegin;     // tick at which a successful restart (reset() + start()) began: the epoch boundary of the monitors
   std::vector<std::thread*> subThreads;
   std::vector<int> subTids;
   std::string problems;               // monitor facts found while running
@@ -282,9 +283,10 @@ void execOp(const MOp& op, bool owner)
   else if (op.kind == "sd") { p.shutdown(); mlog(7); }
   else if (op.kind == "rs" && owner)
   {
+    long t0 = R->tick++;
     auto r = p.reset();
     if (!r.success) mlog(11);
-    else { p.start(); mlog(10); }
+    else { R->rsBegin.push_back(t0); p.start(); mlog(10); }
   }
   else if (op.kind == "x" && owner)
   {
@@ -365,7 +367,7 @@ void runCase(const Case& c, const std::vector<std::string>& t)
   ds::Options o;
   o.timeoutOneIn = static_cast<unsigned>(toIn);
   o.spuriousOneIn = static_cast<unsigned>(spIn);
-  o.maxSteps = 400000;
+  o.maxSteps = 120000;   // ordinary runs need < 6000 steps; only a drain(0) (one hour of polling) or a starved tail gets here
   ds::options(o);
   if (t.size() > 5 && t[5] != "-")
   {
@@ -505,6 +507,9 @@ void runCase(const Case& c, const std::vector<std::string>& t)
     s += " mlog=";
     for (std::size_t i = 0; i < R->mlog.size(); ++i) { char b[60]; std::snprintf(b, sizeof b, "%s%d@%ld", i ? "," : "", R->mlog[i], R->mlogSeq[i]); s += b; }
     if (R->mlog.empty()) s += "-";
+    s += " rsbegin=";
+    for (std::size_t i = 0; i < R->rsBegin.size(); ++i) s += (i ? "," : "") + std::to_string(R->rsBegin[i]);
+    if (R->rsBegin.empty()) s += "-";
     s += " subtids=";
     for (std::size_t i = 0; i < R->subTids.size(); ++i) s += (i ? "," : "") + std::to_string(R->subTids[i]);
     if (R->subTids.empty()) s += "-";
